@@ -183,43 +183,51 @@ pub fn tfb<S: Src, const N: usize>(s: &mut S) {
     }
 }
 
-pub fn pfb<S: Src, const N: usize>(s: &mut S) {
+/// `WHICH` selects the FCI pairings exercised (the instances run side by side): 0 = NACK
+/// (must fail) and FIR, 1 = SLI, 2 = RPSI and PLI.
+pub fn pfb<S: Src, const N: usize, const WHICH: u8>(s: &mut S) {
     input!(s, N => data, len, d);
     let k = s.upto(N / 4);
+    let mut seen = false;
     if let Ok(p) = PayloadFeedback::parse(d) {
         header(&p);
         let _ = (p.padding(), p.sender_ssrc(), p.media_ssrc());
-        assert!(p.parse_fci::<Nack>().is_err());
-        if let Ok(f) = p.parse_fci::<Fir>() {
-            let mut it = f.entries();
-            let mut n = 0;
-            while let Some(e) = it.next() {
-                let _ = (e.ssrc(), e.sequence());
-                n += 1;
-                assert!(n <= (len - 12) / 8);
+        if WHICH == 0 {
+            assert!(p.parse_fci::<Nack>().is_err());
+            if let Ok(f) = p.parse_fci::<Fir>() {
+                let mut it = f.entries();
+                let mut n = 0;
+                while let Some(e) = it.next() {
+                    let _ = (e.ssrc(), e.sequence());
+                    n += 1;
+                    assert!(n <= (len - 12) / 8);
+                }
+                let _ = f.entries().nth(k);
+                seen = n > 0;
             }
-            let _ = f.entries().nth(k);
-            vcover!(n > 0, "FIR entries decoded");
-        }
-        if let Ok(f) = p.parse_fci::<Sli>() {
-            let mut it = f.lost_macroblocks();
-            let mut n = 0;
-            while it.next().is_some() {
-                n += 1;
-                assert!(n <= (len - 12) / 4);
+        } else if WHICH == 1 {
+            if let Ok(f) = p.parse_fci::<Sli>() {
+                let mut it = f.lost_macroblocks();
+                let mut n = 0;
+                while it.next().is_some() {
+                    n += 1;
+                    assert!(n <= (len - 12) / 4);
+                }
+                let _ = f.lost_macroblocks().nth(k);
+                seen = n > 0;
             }
-            let _ = f.lost_macroblocks().nth(k);
-            vcover!(n > 0, "SLI entries decoded");
-        }
-        if let Ok(f) = p.parse_fci::<Rpsi>() {
-            rpsi(&f, len - 12);
-            vcover!(true, "RPSI decoded");
-        }
-        if let Ok(f) = p.parse_fci::<Pli>() {
-            forget(f);
-            vcover!(true, "PLI decoded");
+        } else {
+            if let Ok(f) = p.parse_fci::<Rpsi>() {
+                rpsi(&f, len - 12);
+                seen = true;
+            }
+            if let Ok(f) = p.parse_fci::<Pli>() {
+                forget(f);
+                seen = true;
+            }
         }
     }
+    vcover!(seen, "FCI decoded");
 }
 
 /// The FCI parsers are public entry points of their own (`FciParser::parse`): arbitrary
@@ -475,22 +483,24 @@ pub fn item_value_string<S: Src>(s: &mut S) {
 }
 
 common::register! {
-    q_app = app::<_, 64> => 2,
+    q_app = app::<_, 300> => 2,
     q_bye = bye::<_, 64> => 2,
     q_rr = rr::<_, 64> => 2,
     q_sr = sr::<_, 64> => 2,
     q_rr_full = rr::<_, 776> => 2,
     q_sr_full = sr::<_, 796> => 2,
     q_report_block = report_block => 2,
-    q_unknown = unknown::<_, 64> => 2,
+    q_unknown = unknown::<_, 300> => 2,
     q_unknown_try_as = unknown_try_as::<_, 32> => 2,
     q_unknown_try_as_sdes = unknown_try_as_sdes::<_, 12> => 2,
     q_generic = generic::<_, 32> => 2,
     q_tfb = tfb::<_, 32> => 2,
-    q_pfb = pfb::<_, 32> => 2,
+    q_pfb_fir = pfb::<_, 32, 0> => 2,
+    q_pfb_sli = pfb::<_, 32, 1> => 2,
+    q_pfb_rpsi_pli = pfb::<_, 300, 2> => 2,
     q_fci_fir = fci_fir::<_, 24> => 2,
     q_fci_sli = fci_sli::<_, 16> => 2,
-    q_fci_rpsi = fci_rpsi::<_, 40> => 2,
+    q_fci_rpsi = fci_rpsi::<_, 300> => 2,
     q_fci_pli = fci_pli => 2,
     q_nack_step = nack_step::<_, 64> => 2,
     q_compound_step = compound_step::<_, 64, false> => 2,
@@ -499,19 +509,21 @@ common::register! {
     q_sdes_chunk = sdes_chunk::<_, 16> => 2,
     q_sdes = sdes::<_, 16> => 2,
     q_app_name_string = app_name_string => 2,
-    t_app = app::<_, 256> => 2,
+    t_app = app::<_, 1100> => 2,
     t_bye = bye::<_, 256> => 2,
     t_rr = rr::<_, 256> => 2,
     t_sr = sr::<_, 256> => 2,
-    t_unknown = unknown::<_, 256> => 2,
+    t_unknown = unknown::<_, 1100> => 2,
     t_unknown_try_as = unknown_try_as::<_, 128> => 2,
     t_unknown_try_as_sdes = unknown_try_as_sdes::<_, 16> => 2,
     t_generic = generic::<_, 128> => 2,
     t_tfb = tfb::<_, 128> => 2,
-    t_pfb = pfb::<_, 52> => 2,
+    t_pfb_fir = pfb::<_, 52, 0> => 2,
+    t_pfb_sli = pfb::<_, 52, 1> => 2,
+    t_pfb_rpsi_pli = pfb::<_, 1100, 2> => 2,
     t_fci_fir = fci_fir::<_, 40> => 2,
     t_fci_sli = fci_sli::<_, 40> => 2,
-    t_fci_rpsi = fci_rpsi::<_, 256> => 2,
+    t_fci_rpsi = fci_rpsi::<_, 1100> => 2,
     t_nack_step = nack_step::<_, 1024> => 2,
     t_nack_public = nack_public::<_, 8> => 2,
     t_compound_step = compound_step::<_, 128, false> => 2,
